@@ -182,6 +182,8 @@ def effects(fa, rename=None, keep_calls=True, drop_guards=(), callsites=None):
             cls = x[1] if x[0] == 'call' else x
             p = ('raise', T.show(cls).split('.')[-1])
         elif k in ('return', 'yield', 'yield_from'):
+            if k == 'return' and e.value == T.NONE:
+                continue        # `return` / `return None` is what falling off the end does; what it cuts off shows in the guards
             p = (k, r(e.value))
         elif k == 'store_sub':
             p = (k, T.unmut(r(e.base)), r(e.key), r(e.value))
